@@ -246,12 +246,14 @@ theorem normalize_unit (sq : Rat → Rat) (n : Nat) (v : List Rat)
   rw [this, ← hsq]
   field_simp
 
-/-- the convergence test of `Eigenvalues` as an inequality: the sub-diagonal mass is below
-    `1e-12` of the diagonal mass -/
+/-- the convergence test of `Eigenvalues` as an inequality: no sub-diagonal mass at all (0850cf3), or the
+    sub-diagonal mass is below `1e-12` of the diagonal mass -/
 theorem converged_spec (n : Nat) (A : Mat) (h : converged n A = true) :
-    offSum n A < convThreshold * diagSum n A := by
+    offSum n A = 0 ∨ offSum n A < convThreshold * diagSum n A := by
   simp only [converged, decide_eq_true_eq] at h
-  obtain ⟨h0, h1⟩ := h
+  rcases h with h | ⟨h0, h1⟩
+  · exact Or.inl h
+  right
   have hd : 0 ≤ diagSum n A := by
     unfold diagSum sumTo
     have : ∀ (l : List Nat) (acc : Rat), 0 ≤ acc →
